@@ -97,6 +97,19 @@ pub fn families() -> Vec<(&'static str, String)> {
         v.push(("separators", compose(y, mo, d, h, mi, s, sp, "", z)));
         v.push(("separators", compose(y, mo, d, h, mi, s, sp, "", "Z")));
     }
+    // a sign, blank or letter in place of any single character of the compact and extended forms
+    for base in ["20150830T123607Z", "2015-08-30T12:36:07Z", "20150830T123607+0100", "20150830T123607.5Z"] {
+        for pos in 0..base.len() {
+            for c in ['+', '-', ' ', 'x', '0', ':', '.'] {
+                let mut b: Vec<char> = base.chars().collect();
+                if b[pos] == c {
+                    continue;
+                }
+                b[pos] = c;
+                v.push(("single-character-substitution", b.into_iter().collect()));
+            }
+        }
+    }
     // structural junk
     for s in [
         "", "Z", "T", "20150830", "20150830T", "20150830T1236", "20150830T123607", "20150830 123607Z", "20150830t123607Z", "20150830T123607z",
@@ -355,7 +368,7 @@ pub fn run(tier: Tier) -> i32 {
     ctx.gate("must-reject strings refused with the ISO-8601 class", tally.get("must-reject/via-query"), tier.n(1000, 20_000));
     ctx.gate("accepted timestamps whose UTC date differs from the local date", tally.get("utc_date_differs_from_local"), tier.n(1000, 5000));
     ctx.gate("month-length probes", tally.get("must-accept/month-lengths") + tally.get("must-reject/month-lengths"), 480);
-    ctx.gate("enumerated family strings", tally.get("family_strings_total"), 3900);
+    ctx.gate("enumerated family strings", tally.get("family_strings_total"), 4300);
     ctx.exhaustive("every two-digit value 00–99 of month, day, hour, minute, second, offset hour, offset minute (others fixed) × basic/extended", true);
     ctx.exhaustive("all 32 separator combinations; all offsets −14:00…+14:00 in 15-min steps × 2 spellings; fraction lengths 0–13, 20; days 28–31 of every month in 5 years", true);
     let rep = Report {
